@@ -51,6 +51,8 @@ func runC04(p *core.Program, r *core.Report) {
 	r.Rule("C04.no-swallow", "no decoder recovers from a decoding panic and carries on (a truncated or corrupted record is never skipped silently)", 1)
 	r.Rule("C04.limit", "size-limited reads compare the announced length with the caller's limit before any byte of the payload is read or allocated", 1)
 	r.Rule("C04.unknown-tag", "unknown type codes end in a (recoverable) panic, never in a fabricated object", 4)
+	r.Rule("C04.no-early-stop", "a loop driven by a decoded count is not cut short by looking at how much input is left (a truncated record must fail, not decode as a shorter one)", 1)
+	c04NoEarlyStop(p, r)
 
 	c04ShortRead(p, r)
 	c01Chokepoint(p, r, "C04.chokepoint")
@@ -807,4 +809,71 @@ func narrowSource(fi *core.FuncInfo, x *wire.Extractor, e ast.Expr) string {
 	}
 	visit(e, 0)
 	return res
+}
+
+// c04NoEarlyStop: the condition of a counted decoding loop (and any break inside it) must not depend
+// on Available(): a record truncated at an element boundary would decode as a shorter record.
+func c04NoEarlyStop(p *core.Program, r *core.Report) {
+	x := wire.NewExtractor(p)
+	for _, fi := range p.Funcs {
+		rel := core.RelPkg(fi.Pkg.PkgPath)
+		if fi.Decl.Body == nil || !(strings.HasPrefix(rel, "lang/") || rel == "io" || rel == "util/list" || rel == "util/hmap" || rel == "util/hll") {
+			continue
+		}
+		_, ins := rootStreams(x, fi)
+		if len(ins) == 0 {
+			continue
+		}
+		info := fi.Pkg.TypesInfo
+		mentionsAvail := func(n ast.Node) bool {
+			found := false
+			ast.Inspect(n, func(m ast.Node) bool {
+				if call, ok := m.(*ast.CallExpr); ok {
+					if sel, ok := call.Fun.(*ast.SelectorExpr); ok && sel.Sel.Name == "Available" {
+						if tv, ok := info.Types[sel.X]; ok && x.IsStream(tv.Type) {
+							found = true
+						}
+					}
+				}
+				return true
+			})
+			return found
+		}
+		loops := 0
+		var probs []string
+		ast.Inspect(fi.Decl.Body, func(n ast.Node) bool {
+			var body *ast.BlockStmt
+			switch v := n.(type) {
+			case *ast.ForStmt:
+				body = v.Body
+				loops++
+				if v.Cond != nil && mentionsAvail(v.Cond) {
+					probs = append(probs, p.Pos(v.Pos())+": the loop condition looks at Available(): the loop ends quietly when the input runs out")
+				}
+			case *ast.RangeStmt:
+				body = v.Body
+				loops++
+			}
+			if body != nil {
+				ast.Inspect(body, func(m ast.Node) bool {
+					if ifs, ok := m.(*ast.IfStmt); ok && mentionsAvail(ifs.Cond) {
+						ast.Inspect(ifs.Body, func(k ast.Node) bool {
+							if br, ok := k.(*ast.BranchStmt); ok && br.Tok == token.BREAK {
+								probs = append(probs, p.Pos(ifs.Pos())+": the loop is left when Available() runs out")
+							}
+							if _, ok := k.(*ast.ReturnStmt); ok {
+								probs = append(probs, p.Pos(ifs.Pos())+": the decoder returns from inside the loop when Available() runs out")
+							}
+							return true
+						})
+					}
+					return true
+				})
+			}
+			return true
+		})
+		if loops > 0 {
+			fileProbs(r, "C04.no-early-stop", core.FuncName(fi.Obj), p.Pos(fi.Decl.Pos()), uniq(probs), "element loops run to their decoded count")
+		}
+	}
 }
